@@ -16,6 +16,10 @@ pub mod events;
 #[cfg(feature = "health-integration")]
 pub mod health_integration;
 
+#[cfg(feature = "verif-hooks")]
+#[doc(hidden)]
+pub mod verif;
+
 pub use aimd::{AimdConfig, AimdController};
 pub use error::ResilienceError;
 pub use events::{EventListener, EventListeners, FnListener, ResilienceEvent};
